@@ -41,6 +41,14 @@ func main() {
 	switch os.Args[1] {
 	case "sema":
 		cmdSema(os.Args[2])
+	case "fx":
+		cmdFx(os.Args[2], os.Args[3], atoi(os.Args[4]), atoi(os.Args[5]))
+	case "fxone":
+		cmdFxOne(os.Args[2], os.Args[3], os.Args[4], os.Args[5], os.Args[6], os.Args[7], os.Args[8])
+	case "cv":
+		cmdCv(os.Args[2], os.Args[3], atoi(os.Args[4]))
+	case "cvone":
+		cmdCvOne(os.Args[2], os.Args[3], os.Args[4], os.Args[5], os.Args[6])
 	case "rangetable":
 		cmdRangeTable(os.Args[2], os.Args[3])
 	case "rangetrace":
